@@ -1,7 +1,7 @@
 (* C01 — the solved S-matrix equals the solution of the network equations.
    Only statements and `exact`; proofs live in theories/SolveProofs.v. *)
 From Coq Require Import List Arith ZArith QArith.
-From Lekkersim Require Import Field Matrix Base Kernel Network Solve SolveProofs Corr.
+From Lekkersim Require Import Field Matrix Base Kernel Network Solve SolveProofs SolveComplete Corr.
 Import ListNotations.
 
 Section C01.
@@ -31,11 +31,28 @@ Corollary C01_solve_sound_explicit (net : netlist K) sched T u a b :
                   (fun j => fmul K (l_S T i j) (ext (expo net) u (nth j (l_pins T) dpin)))).
 Proof. intros H W. exact (solve_sound K KL net sched T H u a b W). Qed.
 
+(* the network equations do have a solution for every excitation (back-substitution), so the
+   reported matrix is *the* solution whenever the network is well-posed *)
+Theorem C01_solve_complete (net : netlist K) sched T (u : waves K) :
+  solve net sched = Ok T -> exists a b, wave_solution net u a b.
+Proof. exact (solve_complete K KL net sched T u). Qed.
+
+(* the pins of the result are exactly the unconnected pins of the components: nothing is lost,
+   no connected pin survives *)
+Theorem C01_solve_pins (net : netlist K) sched T :
+  solve net sched = Ok T ->
+  NoDup (l_pins T) /\
+  forall p, In p (l_pins T) <->
+            In p (allpins (map lst_of_comp (comps net))) /\ partner (conns net) p = None.
+Proof. exact (solve_pins K net sched T). Qed.
+
 End C01.
 
 Print Assumptions C01_join_sound.
 Print Assumptions C01_solve_sound.
 Print Assumptions C01_solve_sound_explicit.
+Print Assumptions C01_solve_complete.
+Print Assumptions C01_solve_pins.
 
 (* ---- non-vacuity: a ring resonator — a 4-port coupler, two reflective two-ports, two links
    between the same pair, a feedback loop, one hidden free pin — solves to Ok ---- *)
